@@ -97,60 +97,82 @@ def run(ctx):
         if bad:
             w = rng.choice(list(dic))
             dic[w] = dic[w] + [rng.choice([c for c in inv if c not in cats])]
-        nsent = rng.randint(1, 3)
-        doc, scores = [], []
-        for _ in range(nsent):
-            n = rng.randint(1, 5)
-            doc.append([Token.of_word(rng.choice(vocab)) for _ in range(n)])
-            scores.append(ScoringResult(numpy.array([[rng.randint(-50, 0) for _ in range(T)] for _ in range(n)], dtype=numpy.float32),
-                                        numpy.array([[rng.randint(-50, 0) for _ in range(n + 1)] for _ in range(n)], dtype=numpy.float32)))
-        before_tag = [s.tag_scores.copy() for s in scores]
-        before_dep = [s.dep_scores.copy() for s in scores]
-        before_words = [[t.word for t in sent] for sent in doc]
-        line = (f'filter {T} ' + ' '.join(enc_cat(c) for c in cats) + f' {T} {BIG} {len(dic)} '
-                + ' '.join(f'{enc_str(w)} {len(cs)} ' + ' '.join(enc_cat(c) for c in cs) if cs else f'{enc_str(w)} 0' for w, cs in dic.items())
-                + (' ' if dic else '') + f'{nsent} '
-                + ' '.join(f'{len(sent)} ' + ' '.join(enc_str(t.word) for t in sent) + f' {len(sent)} '
-                           + ' '.join(' '.join(str(int(v)) for v in row) for row in bt) for sent, bt in zip(doc, before_tag)))
-        line = ' '.join(line.split())
-        desc = {'categories': [str(c) for c in cats], 'dict': {w: [str(c) for c in cs] for w, cs in dic.items()},
-                'words': before_words, 'tag_scores': [b.tolist() for b in before_tag]}
-        ctx.evaluations += 1
-        try:
-            d2, s2 = parsing.apply_category_filters(doc, scores, cats, dic, large_negative_value=float(BIG))
-            out = 'ok ' + ' ; '.join(' | '.join(' '.join(str(int(v)) for v in row) for row in s.tag_scores) for s in s2)
-        except Exception as e:
-            d2 = None
-            out = 'err ' + wire.err_name(e)
-        cases.append(('filter', line, out, desc))
-        if d2 is None:
-            if not bad:
-                ctx.fail(f'apply_category_filters raised {out} although every dictionary category is in the category list', desc,
-                         fingerprint=['filter-raise'])
-            continue
-        if bad:
-            ctx.fail('a dictionary category outside the category list was silently accepted', desc, fingerprint=['filter-accept'])
-            continue
-        changed = False
-        for si, (sent, bt, bd) in enumerate(zip(doc, before_tag, before_dep)):
-            at = s2[si].tag_scores
-            if [t.word for t in d2[si]] != before_words[si] or at.shape != bt.shape:
-                ctx.fail('token order / shapes changed', desc, fingerprint=['filter-shape'])
-                break
-            if not numpy.array_equal(s2[si].dep_scores, bd):
-                ctx.fail('dependency scores were touched', desc, fingerprint=['filter-dep'])
-            for i, tok in enumerate(sent):
-                for c in range(T):
-                    if tok.word in dic and cats[c] not in dic[tok.word]:
-                        want = BIG
-                        changed = True
+        def one_call(cats, dic, bad, note=None):
+            nsent = rng.randint(1, 3)
+            doc, scores = [], []
+            for _ in range(nsent):
+                n = rng.randint(1, 5)
+                doc.append([Token.of_word(rng.choice(vocab)) for _ in range(n)])
+                scores.append(ScoringResult(numpy.array([[rng.randint(-50, 0) for _ in range(T)] for _ in range(n)], dtype=numpy.float32),
+                                            numpy.array([[rng.randint(-50, 0) for _ in range(n + 1)] for _ in range(n)], dtype=numpy.float32)))
+            before_tag = [s.tag_scores.copy() for s in scores]
+            before_dep = [s.dep_scores.copy() for s in scores]
+            before_words = [[t.word for t in sent] for sent in doc]
+            line = (f'filter {T} ' + ' '.join(enc_cat(c) for c in cats) + f' {T} {BIG} {len(dic)} '
+                    + ' '.join(f'{enc_str(w)} {len(cs)} ' + ' '.join(enc_cat(c) for c in cs) if cs else f'{enc_str(w)} 0' for w, cs in dic.items())
+                    + (' ' if dic else '') + f'{nsent} '
+                    + ' '.join(f'{len(sent)} ' + ' '.join(enc_str(t.word) for t in sent) + f' {len(sent)} '
+                               + ' '.join(' '.join(str(int(v)) for v in row) for row in bt) for sent, bt in zip(doc, before_tag)))
+            line = ' '.join(line.split())
+            desc = {'note': note, 'categories': [str(c) for c in cats], 'dict': {w: [str(c) for c in cs] for w, cs in dic.items()},
+                    'words': before_words, 'tag_scores': [b.tolist() for b in before_tag]}
+            ctx.evaluations += 1
+            try:
+                d2, s2 = parsing.apply_category_filters(doc, scores, cats, dic, large_negative_value=float(BIG))
+                out = 'ok ' + ' ; '.join(' | '.join(' '.join(str(int(v)) for v in row) for row in s.tag_scores) for s in s2)
+            except Exception as e:
+                d2 = None
+                out = 'err ' + wire.err_name(e)
+            cases.append(('filter', line, out, desc))
+            if d2 is None:
+                if not bad:
+                    ctx.fail(f'apply_category_filters raised {out} although every dictionary category is in the category list', desc,
+                             fingerprint=['filter-raise'])
+                return
+            if bad:
+                ctx.fail('a dictionary category outside the category list was silently accepted', desc, fingerprint=['filter-accept'])
+                return
+            changed = False
+            for si, (sent, bt, bd) in enumerate(zip(doc, before_tag, before_dep)):
+                at = s2[si].tag_scores
+                if [t.word for t in d2[si]] != before_words[si] or at.shape != bt.shape:
+                    ctx.fail('token order / shapes changed', desc, fingerprint=['filter-shape'])
+                    break
+                if not numpy.array_equal(s2[si].dep_scores, bd):
+                    ctx.fail('dependency scores were touched', desc, fingerprint=['filter-dep'])
+                for i, tok in enumerate(sent):
+                    for c in range(T):
+                        if tok.word in dic and cats[c] not in dic[tok.word]:
+                            want = BIG
+                            changed = True
+                        else:
+                            want = bt[i, c]
+                        if at[i, c] != want:
+                            ctx.fail(f'score of token {i} ({tok.word!r}) category {cats[c]} is {at[i, c]}, expected {want}', desc,
+                                     fingerprint=['filter-value'])
+            if changed:
+                ctx.nontrivial_add(line)
+        one_call(cats, dic, bad)
+        if not bad and dic and rng.random() < 0.4:
+            # the same dictionary OBJECT passed again in this process (a user filtering several documents,
+            # possibly against a re-ordered inventory or after editing the dictionary in place): every
+            # call must be decided by its own arguments
+            for _ in range(rng.randint(1, 3)):
+                kind = rng.choice(['again', 'reordered', 'edited', 'edited'])
+                if kind == 'reordered':
+                    cats = list(cats)
+                    rng.shuffle(cats)
+                elif kind == 'edited':
+                    w = rng.choice(list(dic))
+                    how = rng.random()
+                    if how < 0.4:
+                        dic[w] = [rng.choice(cats) for _ in range(rng.randint(0, T))]
+                    elif how < 0.7:
+                        dic[w].append(rng.choice(cats))
                     else:
-                        want = bt[i, c]
-                    if at[i, c] != want:
-                        ctx.fail(f'score of token {i} ({tok.word!r}) category {cats[c]} is {at[i, c]}, expected {want}', desc,
-                                 fingerprint=['filter-value'])
-        if changed:
-            ctx.nontrivial_add(line)
+                        nw = rng.choice(vocab)
+                        dic[nw] = [rng.choice(cats) for _ in range(rng.randint(0, T))]
+                one_call(cats, dic, False, note='same dictionary object, ' + kind)
     ctx.sample({'dictionary_entry': ['attended', cat_dict['attended'][:4]]})
     ctx.sample({'generated': ctx.extra['generated']})
     ctx.extra['skipped_unsupported'] = common.compare_with_model(ctx, cases)
